@@ -14,6 +14,7 @@ from engine import pat
 from engine.util import own_nodes, calls_with_nodes, where
 
 RULES = {
+    "R-05.11": "an integer field printed through an enum's to_text (rcode, rdatatype, algorithm, scheme: ValueError outside 0..maximum) was bounded by the constructor to that enum's range: the field is built with the same enum's make(), or with an _as_uintN no wider than the enum's maximum",
     "R-05.10": "style keywords reach real style fields: every keyword BaseStyle.from_keywords translates a legacy to_text() keyword into (chunksize, separator) is a declared field of a style class, so building the style cannot raise TypeError for a documented option",
     "R-05.9": "a field printed in chunks (hex/base64 broken at the style's chunk size with the style's separator) is the LAST field of the text form, where the reader concatenates the remaining tokens; anywhere else the chunks parse as separate fields",
     "R-05.8": "an enum member whose value has several bits set is a field VALUE (e.g. KEY flags NOKEY = both type bits): `flags & Member` is compared with the member under the field mask, never tested by truth value (which means 'any of the bits')",
@@ -744,6 +745,68 @@ def run(model, rep, tier):
                       f"instead of producing text (declared: {sorted(f_ for f_ in fields if 'chunk' in f_)})", stmt=f"style-keyword {key}")
     rep.floor("R-05.10", n_kw, 4)
     rep.floor("R-05.10-fields", len(fields), 15)
+    # ---------------------------------------------------------------- R-05.11
+    def _enum_max(ci):
+        for k in ci.mro:
+            if hasattr(k, "methods") and "_maximum" in k.methods:
+                for r_ in ast.walk(k.methods["_maximum"].node):
+                    if isinstance(r_, ast.Return) and r_.value is not None:
+                        try:
+                            return int(model.const(k.module, r_.value))
+                        except (AnalysisError, TypeError, ValueError):
+                            return None
+        return None
+
+    def _enum_of_callee(fq):
+        if fq is None:
+            return None
+        if fq.rsplit(".", 1)[0] in model.classes:
+            return model.classes[fq.rsplit(".", 1)[0]]
+        fn_ = model.functions.get(fq)
+        if fn_ is None:
+            return None
+        for c_ in ast.walk(fn_.node):
+            if isinstance(c_, ast.Call) and isinstance(c_.func, ast.Attribute) and c_.func.attr == "to_text":
+                k = model.classes.get(model.resolve_expr(fn_, c_.func.value))
+                if k is not None:
+                    return k
+        return None
+    n_en = 0
+    for f11 in sorted(model.all_functions(), key=lambda g: g.qualname):
+        if f11.name != "to_styled_text" or not f11.module.name.startswith("dns.rdtypes") or f11.cls is None:
+            continue
+        for c in ast.walk(f11.node):
+            if not (isinstance(c, ast.Call) and isinstance(c.func, ast.Attribute) and c.func.attr == "to_text" and c.args and isinstance(c.args[0], ast.Attribute) and src(c.args[0].value) == "self"):
+                continue
+            E = _enum_of_callee(model.resolve_expr(f11, c.func))
+            emax = _enum_max(E) if E is not None else None
+            fld = c.args[0].attr
+            def _stores(fn_):
+                return [x for x in ast.walk(fn_.node) if isinstance(x, (ast.Assign, ast.AnnAssign)) and x.value is not None
+                        and any(src(t_) == "self." + fld for t_ in (x.targets if isinstance(x, ast.Assign) else [x.target]))]
+            init = next((k.methods["__init__"] for k in f11.cls.mro if hasattr(k, "methods") and "__init__" in k.methods and _stores(k.methods["__init__"])), None)
+            if E is None or emax is None or init is None:
+                rep.blind("R-05.11", f11.qualname, where(f11, c), f"`{src(c)[:50]}`: enum / maximum / constructor store of self.{fld} not identified", stmt=f"enum-text {fld}")
+                continue
+            n_en += 1
+            for x in _stores(init):
+                if True:
+                    v = x.value
+                    bound, how = None, src(v)[:50]
+                    if isinstance(v, ast.Call) and isinstance(v.func, ast.Attribute) and v.func.attr == "make":
+                        k = model.classes.get(model.resolve_expr(init, v.func.value))
+                        bound = _enum_max(k) if k is not None else None
+                    elif isinstance(v, ast.Call) and isinstance(v.func, ast.Attribute) and re.fullmatch(r"_as_uint(\d+)", v.func.attr):
+                        bound = 2 ** int(re.fullmatch(r"_as_uint(\d+)", v.func.attr).group(1)) - 1
+                    elif isinstance(v, ast.Call) and isinstance(v.func, ast.Attribute) and v.func.attr in ("_as_rdatatype", "_as_rdataclass"):
+                        bound = 65535
+                    if bound is None:
+                        rep.blind("R-05.11", f11.qualname, where(init, x), f"self.{fld} = `{how}`: bound not identified", stmt=f"enum-text {fld}")
+                    else:
+                        rep.check(bound <= emax, "R-05.11", f11.qualname, where(init, x), f"self.{fld} <= {bound} is printable by {E.name}.to_text (maximum {emax})",
+                                  f"self.{fld} is built by `{how}` (values up to {bound}) but printed with {E.name}.to_text, which raises ValueError above {emax}: "
+                                  "a record accepted from the wire cannot be turned into text", stmt=f"enum-text {fld}")
+    rep.floor("R-05.11", n_en, 5)
     rep.meta["explanation"] = (
         "Interval evaluation of every struct.pack argument in ~60 wire encoders against the ranges established by constructor validators (field table read from __init__), a local scan of every text "
         "producer for operations that can raise on validated data, folded escape-table comparison for quoted strings, and a per-field check that octet-wise printing is paired with octet-wise parsing. "
@@ -751,6 +814,8 @@ def run(model, rep, tier):
 
 
 WITNESSES = [
+    {"id": "c05-tsig-error-wider-than-rcode", "rule": "R-05.11", "file": "dns/rdtypes/ANY/TSIG.py", "expect": "fires",
+     "old": "        self.error = dns.rcode.Rcode.make(error)", "new": "        self.error = self._as_uint16(error)"},
     {"id": "c05-style-keyword-unknown-field", "rule": "R-05.10", "file": "dns/style.py", "expect": "fires",
      "old": "                ok_kw[\"hex_chunk_size\"] = v", "new": "                ok_kw[\"hex_chunksize\"] = v"},
     {"id": "c05-key-nokey-any-bit", "rule": "R-05.8", "file": "dns/rdtypes/ANY/KEY.py", "expect": "fires",
